@@ -92,7 +92,7 @@ func genShape(r *vx.Rand) shape {
 	s.primary = r.Intn(n)
 	switch x := r.Intn(100); {
 	case x < 10:
-		s.ageMs = 2500 + int64(r.Intn(8000))
+		s.ageMs = 3200 + int64(r.Intn(7000)) // (not shortly below the 3 s lock ttl: a waiter would retry thousands of times on the frozen clock)
 		s.wideWindow = r.Chance(30)
 	case x < 16:
 		s.ageMs = 25*3600*1000 + int64(r.Intn(3600*1000))
